@@ -1,8 +1,8 @@
 """C22 — A failing REPL cell leaves the session as if it never ran.
 
 Contract on the real `pytezos.michelson.repl:Interpreter.execute` (debug flag off), evaluated at run
-time on exhaustively enumerated sessions (R mode, bounded; no P part: heap aliasing and custom
-`__deepcopy__` are outside PyVC's model):
+time on exhaustively enumerated sessions (R mode, bounded; heap aliasing and custom `__deepcopy__` are outside
+PyVC's model; the wrapper logic itself is decided deductively in props/C22_P.py):
 
   ensures on failure   snap(self.stack) == old(snap(self.stack))
                        snap(self.context) == old(snap(self.context))
@@ -88,6 +88,8 @@ def run(ck: Check) -> int:
               '(metamorphic two-run contract); determinism of the interpreter on a fresh Interpreter() is assumed and '
               'spot-checked by re-running every reference session in the workers')
     ck.assume('debug flag off (the DEBUG instruction is outside the cell alphabet of the property)')
+    from props.C22_P import run_P
+    run_P(ck)
     L = 5 if ck.thorough() else 4
     procs = min(16, os.cpu_count() or 4)
     ck.bound('session_length_exhaustive', L)
@@ -144,7 +146,10 @@ def run(ck: Check) -> int:
                      replay='props.C22:replay', wclass=x['wclass'])
     ck.extra['failure_classes'] = {f'{k[0]} / {k[1]}': v for k, v in sorted(n_fail.items())}
     ck.exhaustive = True
-    return ck.finish('exploration',
+    return ck.finish('other',
+                     'P (props/C22_P.py): the backup/restore wrapper Interpreter.execute on its real AST with opaque stack, context, parser and '
+                     'instruction bodies: one consistent snapshot taken first, restored on every Michelson failure (from parsing or from any '
+                     'instruction, after arbitrary in-place effects), live state kept on success, other exceptions propagate; '
                      'R (bounded): failure clauses (stack, context restored), big_map ownership invariant and the relational '
                      'clause against the session without the failing cell, evaluated on the real Interpreter.execute over all '
-                     'enumerated sessions; no P part')
+                     'enumerated sessions (what a snapshot contains — BigMapType.__deepcopy__, context counters — is decided here only)')
